@@ -50,3 +50,24 @@ package surveyor
 //@ func (*context).RecvMsg
 //@   before return#2 assert surv == nil
 //@   before select#1 assert surv != nil
+// ---- generated option contracts (tools/gen_option_contracts.py) ----
+//@ func (*context).SetOption
+//@   ensures name != protocol.OptionSurveyTime && name != protocol.OptionRecvDeadline && name != protocol.OptionReadQLen ==> result == protocol.ErrBadOption
+//@   ensures name == protocol.OptionSurveyTime ==> (isnil(result) <==> is_duration(value))
+//@   ensures name == protocol.OptionSurveyTime && !isnil(result) ==> result == protocol.ErrBadValue
+//@   ensures name == protocol.OptionSurveyTime && isnil(result) ==> c.survExpire == int_of(value)
+//@   ensures name == protocol.OptionRecvDeadline ==> (isnil(result) <==> is_duration(value))
+//@   ensures name == protocol.OptionRecvDeadline && !isnil(result) ==> result == protocol.ErrBadValue
+//@   ensures name == protocol.OptionRecvDeadline && isnil(result) ==> c.recvExpire == int_of(value)
+//@   ensures name == protocol.OptionReadQLen ==> (isnil(result) <==> is_int(value) && 0 <= int_of(value))
+//@   ensures name == protocol.OptionReadQLen && !isnil(result) ==> result == protocol.ErrBadValue
+//@   ensures name == protocol.OptionReadQLen && isnil(result) ==> c.recvQLen == int_of(value)
+//@   ensures !isnil(result) ==> unchanged(c.recvExpire, c.recvQLen, c.survExpire)
+//@
+//@ func (*context).GetOption
+//@   ensures option != protocol.OptionSurveyTime && option != protocol.OptionRecvDeadline && option != protocol.OptionReadQLen ==> result1 == protocol.ErrBadOption && isnil(result0)
+//@   ensures option == protocol.OptionSurveyTime ==> isnil(result1) && result0 == iface(c.survExpire)
+//@   ensures option == protocol.OptionRecvDeadline ==> isnil(result1) && result0 == iface(c.recvExpire)
+//@   ensures option == protocol.OptionReadQLen ==> isnil(result1) && result0 == iface(c.recvQLen)
+//@
+// ---- end generated option contracts ----
